@@ -225,6 +225,16 @@ def parts(tier):
             cases=1600 if q else 50000, batch=200,
         ),
         core.Part(
+            'where', execute,
+            strategy=sim.histories(
+                weights={'req': 3},
+                spec_kw={'kinds': ('task', 'task', 'analysis', 'regress'),
+                         'where': True},
+                empty_targets=False,
+            ),
+            cases=400 if q else 12500, batch=200,
+        ),
+        core.Part(
             'faults', execute,
             strategy=sim.histories(
                 weights={'req': 3, 'dbfault': 3},
